@@ -108,7 +108,7 @@ func sizedText(p TextProfile, q int) []Stmt {
 			nLocalVt = g.NV + 1 // pools of different sizes: a pool mix-up changes a value or leaves the range
 		}
 		if g.Syn&2 != 0 {
-			nLocalVn = (g.NV+1)/2 + 1
+			nLocalVn = g.NV - 1 // with the profiles of size s-1, s, s+1 each pool is once exactly s long
 		}
 		for i := 0; i < g.NV; i++ {
 			k := nv + off
